@@ -57,6 +57,8 @@ class LeafScenario(Scenario):
                 return True
             if fn in ("math.isnan", "math.isinf", "numpy.isnan", "np.isnan", "numpy.isinf", "np.isinf"):
                 return False
+            if fn in ("math.isfinite", "numpy.isfinite", "np.isfinite"):
+                return True
         if isinstance(test, ast.Compare) and len(test.ops) == 1:
             l, op, r = ast.unparse(test.left), test.ops[0], ast.unparse(test.comparators[0])
             if l in ("0.0", "0") and r not in ("0.0", "0") and isinstance(op, (ast.Eq, ast.NotEq)):
